@@ -20,7 +20,7 @@ var Lexemes = map[string][]string{
 	"T_DNUMBER": {"1.5", ".5", "1.", "1e3", "1E-3", "9223372036854775808", "1.5e+3", "0x8000000000000000"},
 	"T_STRING": {"a", "Abc", "_x9", "a\x80\xff"}, "T_STRING_VARNAME": {"a"}, "T_VARIABLE": {"$a", "$_b9", "$A\x80"}, "T_NUM_STRING": {"0", "12", "0x1A", "010"},
 	"T_INLINE_HTML": {"?>x<?php "}, "T_ENCAPSED_AND_WHITESPACE": {"x ", "x\\n\\\"y", " \\$ \\{ "},
-	"T_CONSTANT_ENCAPSED_STRING": {"'s'", "''", "\"s\"", "\"\"", "'a\\'b'", "\"a\\\"b\"", "'$a {$b}'", "\"\\$a\"", "'x\ny'", "\"x\r\ny\"", "'x\ry'", "\"a\\\\\""},
+	"T_CONSTANT_ENCAPSED_STRING": {"'s'", "''", "\"s\"", "\"\"", "\"a\\\nb\"", "\"a\\\rb\"", "'a\\\nb'", "\"a\\\r\nb\\\\\n\"", "b\"x\\\ny\"", "'a\\'b'", "\"a\\\"b\"", "'$a {$b}'", "\"\\$a\"", "'x\ny'", "\"x\r\ny\"", "'x\ry'", "\"a\\\\\""},
 	"T_ECHO": {"echo", "ECHO", "Echo"}, "T_DO": {"do", "DO"}, "T_WHILE": {"while", "WHILE", "While"}, "T_ENDWHILE": {"endwhile", "ENDWHILE"},
 	"T_FOR": {"for", "FOR"}, "T_ENDFOR": {"endfor", "ENDFOR"}, "T_FOREACH": {"foreach", "FOREACH", "ForEach"}, "T_ENDFOREACH": {"endforeach", "ENDFOREACH"},
 	"T_DECLARE": {"declare", "DECLARE"}, "T_ENDDECLARE": {"enddeclare", "ENDDECLARE"}, "T_AS": {"as", "AS", "As"}, "T_SWITCH": {"switch", "SWITCH"},
